@@ -6,7 +6,7 @@ from ..world import lnot, World, mkbytearray, mkstr, blist, cplist, all_eq, as_i
 
 PROPERTY = 'C20'
 BUDGET = {'quick': {'seconds': 900, 'xreplay_every': 3}, 'thorough': {'seconds': 3000, 'xreplay_every': 3}}
-NONTRIVIAL = {'quick': ['setter.accepted', 'setter.rejected', 'connect.accepted', 'connect.rejected', 'publish.accepted', 'publish.rejected',
+NONTRIVIAL = {'quick': ['setter.accepted', 'setter.rejected', 'connect.accepted', 'connect.rejected', 'connect.rejected.carried', 'publish.accepted', 'publish.rejected',
                         'subscribe.accepted', 'subscribe.rejected', 'unsubscribe.accepted', 'unsubscribe.rejected']}
 MARK = 0x5A
 
@@ -77,6 +77,22 @@ def h_setter(eng, params):
 
 # ------------------------------------------------------------------------------ connect
 
+def carried_session(eng, w):
+    """a persistent-session connection with an unacknowledged QoS 1 publish, lost; returns the publish Tracked"""
+    c0 = w.build()
+    w.begin_step('connect-0')
+    scen.connect(w, c0, 0, False)
+    w.begin_step('connack-0')
+    scen.connack(w, c0)
+    w.begin_step('publish-0')
+    tr = w.api(c0, 'publish', 'carried', scen.topic(eng, 0x6b), mkbytearray(eng, [5]), qos=1)
+    w.begin_step('lose-0')
+    w.lose(c0)
+    w.begin_step('notify-0')
+    w.advance(1)
+    return tr
+
+
 def h_connect(eng, params):
     import mqtt
     case = params['case']
@@ -135,6 +151,13 @@ def h_connect(eng, params):
             kw.update(username=scen.topic(eng))
         kw[f] = long_(n)
         expect_ok = n <= 65535
+    carried = None
+    if params.get('carried'):
+        carried = carried_session(eng, w)
+        c = w.build()
+        w.begin_step('connect')
+        mark = len(w.events)
+        tb = list(w.pending_timers())
     tr = w.api(c, 'connect', 'connect', cid, **kw)
     w.after_api()
     eng.check(tr is not None, 'connect-raised', 'connect() raised instead of returning a failed Deferred (%s)' % case, sig='connect-raised:' + case)
@@ -153,12 +176,33 @@ def h_connect(eng, params):
                   sig='rejected-valid:connect:' + case)
         quiet(eng, w, c, mark, tb, 'connect:' + case)
         eng.count('connect.rejected')
+        # the same invalid call again is rejected again (nothing was remembered from the first attempt)
+        w.begin_step('connect-again-invalid')
+        m1 = len(w.events)
+        tr1 = w.api(c, 'connect', 'connect-repeat', cid, **kw)
+        e1 = failed_with(tr1)
+        eng.check(e1 is not None and isinstance(e1, (ValueError, TypeError)), 'repeated-invalid-call-accepted',
+                  'the same invalid connect() was accepted the second time (%s)' % case, sig='repeated-invalid-call-accepted:connect:' + case)
+        quiet(eng, w, c, m1, tb, 'connect-repeat:' + case)
+        if carried is not None:
+            # a rejected call changes nothing: the session carried over from the earlier connection is intact
+            eng.check(not carried.fired, 'rejected-call-touched-session', 'a rejected connect() fired the Deferred of a carried-over publish (%s)' % (
+                type(carried.fired[0][2].value).__name__ if carried.fired and not carried.fired[0][1] else 'success'),
+                sig='rejected-call-touched-session:' + case)
+            eng.count('connect.rejected.carried')
         # state unchanged: a valid connect() still goes through
         w.begin_step('connect-valid')
         m2 = len(w.events)
-        tr2 = scen.connect(w, c)
+        tr2 = scen.connect(w, c, 0, carried is None)
         eng.check(tr2 is not None and not tr2.fired and len([e for e in w.events[m2:] if e.kind == 'write']) == 1, 'state-changed-by-rejected-call',
                   sig='state-changed-by-rejected-call:connect:' + case)
+        if carried is not None:
+            w.begin_step('connack-valid')
+            m3 = len(w.events)
+            scen.connack(w, c, 1, 0)
+            resent = [e for e in w.events[m3:] if e.kind == 'write']
+            eng.check(len(resent) == 1 and not carried.fired, 'rejected-call-touched-session',
+                      'after a rejected connect() the persistent session no longer resumes its unacknowledged PUBLISH', sig='rejected-call-touched-session:resume:' + case)
     check_no_exceptions(w)
     return w.trace() if params.get('n', 0) < 1000 else None
 
@@ -192,7 +236,10 @@ def h_request(eng, params):
         elif case == 'longtopic':
             topic = mkstr(eng, [MARK, MARK] + [0x61] * (params['n'] - 2))
             expect_ok = params['n'] <= 65535
-        tr = w.api(c, 'publish', 'op', topic, payload, qos=qos, retain=eng.bool('retain'))
+        ret = eng.bool('retain')
+        tr = w.api(c, 'publish', 'op', topic, payload, qos=qos, retain=ret)
+        params = dict(params)
+        params['repeat'] = lambda w_, c_: w_.api(c_, 'publish', 'op-repeat', topic, payload, qos=qos, retain=ret)
     elif op == 'subscribe':
         if case == 'qos':
             q = eng.int('qos')
@@ -230,6 +277,15 @@ def h_request(eng, params):
                   sig='rejected-valid:' + what)
         quiet(eng, w, c, mark, tb, what)
         eng.count(op + '.rejected')
+        if params.get('repeat'):
+            w.begin_step(op + '-again-invalid')
+            m1 = len(w.events)
+            tb1 = list(w.pending_timers())
+            tr1 = params['repeat'](w, c)
+            e1 = failed_with(tr1)
+            eng.check(e1 is not None and isinstance(e1, (ValueError, TypeError)), 'repeated-invalid-call-accepted',
+                      'the same invalid %s() was accepted the second time (%s)' % (op, what), sig='repeated-invalid-call-accepted:' + what)
+            quiet(eng, w, c, m1, tb1, what + ':repeat')
         # nothing queued: no packet with the marker topic ever appears, a valid request still works
         w.begin_step('valid-after')
         m2 = len(w.events)
@@ -267,6 +323,10 @@ def shards(tier):
             out.append(('connect', {'profile': profile, 'case': 'clientid31', 'n': n}))
         for n in (24, 65535, 65536):
             out.append(('connect', {'profile': profile, 'case': 'clientid311', 'n': n}))
+    for case in ('willQoS', 'keepalive', 'will-topic-only', 'password-only'):
+        out.append(('connect', {'profile': 'pubsubs', 'case': case, 'carried': True}))
+    out.append(('connect', {'profile': 'publisher', 'case': 'version', 'v': 'none', 'carried': True}))
+    out.append(('connect', {'profile': 'pubsubs', 'case': 'longfield', 'field': 'username', 'n': 65536, 'carried': True}))
     for f in ('willTopic', 'willMessage', 'username', 'password'):
         for n in (65535, 65536):
             out.append(('connect', {'profile': 'pubsubs', 'case': 'longfield', 'field': f, 'n': n}))
@@ -294,11 +354,11 @@ META = {
             'are validity queries; non-trivial = accepted and rejected classes per entry point',
     'bounds': {'quick': 'setWindowSize(n), setTimeout(t int / real in -10..3000), setBandwith(b in -5..1e6, f in -5..16) in 5 profile/state combinations with requests pending; '
                         'connect: willQoS and keepalive unconstrained integers, client-id lengths 1,22,23,24,25 (v3.1) and 24,65535,65536 (v3.1.1), six version values, will '
-                        'topic/message presence, password without user, every string field at 65535/65536 bytes; publish: QoS unconstrained, 7 wrong payload types, topic at '
+                        'topic/message presence, password without user, every string field at 65535/65536 bytes; every rejected call is repeated once and must be rejected again; rejected connect() also on a rebuilt protocol holding a carried-over persistent session; publish: QoS unconstrained, 7 wrong payload types, topic at '
                         '65535/65536 bytes, in connecting/connected x publisher/pubsubs; subscribe: QoS unconstrained in the three shapes, 6 wrong topic types; unsubscribe: two shapes, 6 wrong types',
                'thorough': 'same (single-call space is covered completely at the quick tier)'},
     'stubs': ['fake transport', 'twisted task.Clock', 'jitter: fixed sequence'],
-    'outside': ['non-integer window sizes', 'wrong argument types for connect() (not listed by the property)', 'sequences of several invalid calls'],
+    'outside': ['non-integer window sizes', 'more than two invalid calls in a row', 'wrong argument types for connect() (not listed by the property)', 'sequences of several invalid calls'],
     'assumptions': [],
 }
 
